@@ -194,13 +194,35 @@ pub fn run(ctx: &mut Ctx) {
             ctx.count("panic-probes:different-game", 1);
             if let Ok(d) = r {
                 ctx.violation(idx, "C19:no-panic-for-different-games", &format!("distance between profiles of two separately built (structurally equal) games returned {:?}", d), json!({"game": tree.to_json()}));
+                return;
             } else {
                 ctx.ok(mix(idx ^ 0xbeef), false);
+            }
+            // history: an existing value of the first game is overwritten in place with a profile
+            // of the second (`clone_from`); from then on it is a profile of the second game: at
+            // distance 0 from its source, and not comparable with profiles of the first any more
+            let mut dst = sa.clone();
+            dst.clone_from(&so);
+            ctx.count("histories(clone_from across games, distance)", 1);
+            match catch(|| dst.distance(&so, 1.0)) {
+                Ok(d) if d == [0.0, 0.0] => {}
+                Ok(d) => {
+                    ctx.violation(idx, "C19:history:clone_from:distance-to-source-not-zero", &format!("a.clone_from(&b) then a.distance(&b, 1) = {:?}", d), json!({"game": tree.to_json()}));
+                    return;
+                }
+                Err(m) => {
+                    ctx.violation(idx, "C19:history:clone_from:panic-for-same-game", &format!("a.clone_from(&b) then a.distance(&b, 1) panicked although both are now profiles of one game: {}", m), json!({"game": tree.to_json()}));
+                    return;
+                }
+            }
+            if let Ok(d) = catch(|| dst.distance(&sa, 1.0)) {
+                ctx.violation(idx, "C19:history:clone_from:no-panic-for-different-games", &format!("after a.clone_from(&b) with b of another game, a.distance(&profile of the first game) returned {:?} instead of panicking", d), json!({"game": tree.to_json()}));
+                return;
             }
         }
     });
     ctx.finish(crate::report::extra(
-        "cases = (game, profile pair, exponent): G1/G2 games incl. games where a player has no multi-action infoset x (a third of the cases: profile a imported from a listing whose infosets are split over several entries; it must be at distance 0 from its merged import) x pairs {identical, random vs pure, one infoset differs, disjoint supports, random} x p in {1e-3,0.3,0.5,1,1.5,2,10,1e3,+inf,1e300,1e-300}. Laws checked per player component: not NaN, within [0,1], distance(a,a)=0, zero when the player's strategies coincide, positive when they differ by >=1e-3 somewhere (p<=10; larger p is don't-care because |d|^p underflows), symmetric. Every fourth case also probes the documented panics: p in {0,-1,NaN,-inf,-0} and two separately built copies of the same tree. distinct = hash(tree, both profiles, p); non-trivial = some player has a multi-action infoset.",
+        "cases = (game, profile pair, exponent): G1/G2 games incl. games where a player has no multi-action infoset x (a third of the cases: profile a imported from a listing whose infosets are split over several entries; it must be at distance 0 from its merged import) x pairs {identical, random vs pure, one infoset differs, disjoint supports, random} x p in {1e-3,0.3,0.5,1,1.5,2,10,1e3,+inf,1e300,1e-300}. Laws checked per player component: not NaN, within [0,1], distance(a,a)=0, zero when the player's strategies coincide, positive when they differ by >=1e-3 somewhere (p<=10; larger p is don't-care because |d|^p underflows), symmetric. Every fourth case also probes the documented panics: p in {0,-1,NaN,-inf,-0} and two separately built copies of the same tree, followed by a history step: a value of the first game overwritten with clone_from by a profile of the second must be at distance 0 from its source and panic against profiles of the first. distinct = hash(tree, both profiles, p); non-trivial = some player has a multi-action infoset.",
         &["NaN is treated as 'not positive' for the exponent"],
     ));
 }
